@@ -290,6 +290,8 @@ def e2e_job(job):
                 out["cross"] = cross_build(rrs)
             if job.get("two_instances") and base is not None and base.instantiate == ("ok",):
                 out["two"] = two_instances(repo, work, w2c2, m, calls, imp, tr, base, job["builds"][0], spec)
+            if job.get("family") and base is not None and base.instantiate == ("ok",):
+                out["family"] = family(repo, work, w2c2, m, calls, imp, tr, job["builds"][0], spec)
         finally:
             if tr.dir:
                 shutil.rmtree(tr.dir, ignore_errors=True)
@@ -368,6 +370,155 @@ def two_instances(repo, work, w2c2, m, calls, imp, tr, base, build, spec):
                 diffs.append({"kind": "two-instances-" + fld, "instance": k, "interleaved": x if fld != "results" else [p for p, q in zip(x, y) if p != q][:3],
                               "single": y if fld != "results" else [q for p, q in zip(x, y) if p != q][:3]})
     return {"diffs": diffs, "script_len": len(script), "order": "".join(str(s[0]) for s in script)[:80]}
+
+
+# ------------------------------------------------------------------------------- families: instances derived through <module>NewChild
+def _sparse(data):
+    return str(len(data)) + "".join("/%d:%s" % (mm.start(), mm.group(0).hex()) for mm in re.finditer(rb"[^\x00]+", data))
+
+
+def family_reference_modules(m):
+    """(module for V8's first instantiations, module for V8's child instantiations | None = the same, note).
+    V8 has no NewChild: a child is a further V8 instance made with the SAME import objects as its parent.  What `<module>NewChild` does
+    differently from that is made explicit here, as the emitted code does it (Model/NewChild.lean, Props/C06Child.lean):
+      * a SHARED defined memory of the child is the parent's object: for V8 that memory becomes an import (same index space: it is the
+        only memory), so parent and child share it and the data segments are applied to it again, as InitMemories(child, self) does;
+      * a module that defines no memory gets no InitMemories call in NewChild: its active data segments (into the imported memory) are
+        not applied again: V8's child is made from a variant whose active data segments are empty."""
+    import copy
+    ref, child, note = m, None, None
+    n_imp_mem = sum(1 for i in m.imports if i.kind == "memory")
+    if len(m.mems) == 1 and m.mems[0].shared and n_imp_mem == 0:
+        ref = copy.deepcopy(m)
+        ref.imports.append(A.Import(b"__verif", b"shared_mem0", "memory", ref.mems.pop(0)))
+        note = "shared-defined-memory-as-import"
+    elif not m.mems and any(d.mode == "active" and len(d.data) for d in m.datas):
+        child = copy.deepcopy(m)
+        for d in child.datas:
+            if d.mode == "active":
+                d.data = b""
+                d.offset = A.Instr("i32.const", 0)
+        note = "child-without-data-segments"
+    return ref, child, note
+
+
+def family(repo, work, w2c2, m, calls, imp, tr, build, spec, cap=12):
+    """Interleaved history on four live instances of ONE module: 0 = A (<module>Instantiate), 1 = B = A's common.newChild(A) made AFTER
+    A's first calls, 2 = C (<module>Instantiate, independent), 3 = D = C's common.newChild(C) made before any call.  Every instance is
+    compared with the corresponding V8 instance of `v8.run_family` (results, host trace, final memory, exported globals); the dumps
+    taken around each NewChild are judged against independent statements: the parent's globals / table / (unshared) memory are the same
+    before and after, a child's defined globals equal their initialisers, its table is the element segments applied in order, a defined
+    memory is the parent's object iff it is declared shared."""
+    rng = random.Random("%s:family" % spec_id(spec))
+    cs = list(calls[:cap])
+    q = [[(k, n, v) for n, v in cs] for k in range(4)]
+    n0 = max(1, len(cs) // 3) if cs else 0
+    script = q[0][:n0]
+    q[0] = q[0][n0:]
+    at = len(script)
+    while any(q):
+        k = rng.choice([j for j in range(4) if q[j]])
+        script.append(q[k].pop(0))
+    ref, childmod, note = family_reference_modules(m)
+    out = {"diffs": [], "script_len": len(script), "order": "".join(str(x[0]) for x in script)[:100], "reference": note, "child_created_at": at,
+           "compared_calls": 0, "skipped": None}
+
+    def plan_for(a):
+        pl = [{"kind": "new"}, {"kind": "child", "parent": 0, "at": a}, {"kind": "new"}, {"kind": "child", "parent": 2, "at": 0}]
+        if childmod is not None:
+            for p_ in pl:
+                if p_["kind"] == "child":
+                    p_["wasm"] = encode(childmod).hex()
+        return pl
+    refb = encode(ref)
+    vs = v8.run_family(refb, plan_for(at), script, imp, module=ref)
+    if any(v.instantiate[0] not in ("ok", "skip") for v in vs):
+        out["skipped"] = "V8 instantiation: %r" % ([v.instantiate for v in vs],)
+        return out
+    # w2c2 emits no bounds / signature checks: the script ends before the first call on which V8 raises such a trap
+    pos = [0] * 4
+    cut = None
+    for j, (k, n, a) in enumerate(script):
+        r = vs[k].results[pos[k]] if pos[k] < len(vs[k].results) else None
+        pos[k] += 1
+        if r is not None and r[0] == "trap" and r[1] in e2e.V8_ONLY_TRAPS:
+            cut = j
+            break
+    if cut is not None:
+        script = script[:cut]
+        at = min(at, cut)
+        out["truncated_at"] = cut
+        vs = v8.run_family(refb, plan_for(at), script, imp, module=ref)
+    cc, copts, san = build
+    rs = e2e.run_real_multi(repo, work, w2c2, m, script, imp, instances=4, cc=cc, copts=tuple(copts), sanitize=san, translated=tr,
+                            children={1: (0, at), 3: (2, 0)}, init_dump=True, keep_mem=True)
+    float_stores = any(i.op in FLOAT_STORES for f in m.funcs for i in _walk(f.body))
+    for k, (r, v) in enumerate(zip(rs, vs)):
+        if r.instantiate[0] == "skip" and v.instantiate[0] == "skip":
+            continue
+        if r.instantiate[0] in ("build_error", "w2c2_error"):
+            out["skipped"] = "build: %s" % (r.instantiate[1][:200],)
+            return out
+        diffs, info = e2e.compare(r, v)
+        out["compared_calls"] += info["compared_calls"]
+        for d in diffs:
+            if d["kind"] == "memory" and float_stores:
+                out["memory_hash_not_compared_float_stores"] = True       # NaN payloads of stored arithmetic results are left open
+                continue
+            out["diffs"].append(dict(d, kind="family-" + d["kind"], instance=k, role="ABCD"[k]))
+        if any(x is False for x in r.bound.values()):
+            out["diffs"].append({"kind": "family-import-not-bound", "instance": k, "role": "ABCD"[k], "real": r.bound})
+    # the dumps around each NewChild
+    n_gi = sum(1 for i in m.imports if i.kind == "global")
+    n_mi = sum(1 for i in m.imports if i.kind == "memory")
+    shares_memory = bool(n_mi) or any(l.shared for l in m.mems)
+    reapplies = bool(m.mems) and any(d.mode == "active" and len(d.data) for d in m.datas)
+    out["child_dumps"] = {}
+    for ck, pk in ((1, 0), (3, 2)):
+        cd = rs[ck].child_dumps.get(ck)
+        if not cd or "self" not in cd:
+            continue
+        role = "ABCD"[ck]
+        before, after, me = cd.get("parent_before"), cd.get("parent"), cd["self"]
+        if before and after:
+            # the parent's DEFINED globals are fields of its own struct (imported ones are shared cells the child's start function may write)
+            bg = {g: tuple(x) for g, x in before["all_globals"].items() if g >= n_gi}
+            ag = {g: tuple(x) for g, x in after["all_globals"].items() if g >= n_gi}
+            if bg != ag and not (set(bg) == set(ag) and all(e2e.same_vals([bg[g]], [ag[g]]) for g in bg)):
+                out["diffs"].append({"kind": "newchild-changes-parent-globals", "instance": pk, "role": "ABCD"[pk], "child": role,
+                                     "real": ag, "spec": bg})
+            if before["table"] != after["table"]:
+                out["diffs"].append({"kind": "newchild-changes-parent-table", "instance": pk, "role": "ABCD"[pk], "child": role,
+                                     "real": after["table"], "spec": before["table"]})
+            # a memory the child shares may be written by the data segments applied again and by the child's start function
+            if before["mem"] and after["mem"] and before["mem"] != after["mem"] and not (shares_memory and (reapplies or m.start is not None)):
+                out["diffs"].append({"kind": "newchild-changes-parent-memory", "instance": pk, "role": "ABCD"[pk], "child": role,
+                                     "real": after["mem"], "spec": before["mem"]})
+        if m.start is None:
+            for g_k, g in enumerate(m.globals):
+                want = e2e.const_value(m, g.init, imp)
+                wd = 32 if g.type.valtype in (A.I32, A.F32) else 64
+                got = me["all_globals"].get(n_gi + g_k)
+                if got is not None and got[1] != want & ((1 << wd) - 1) and not e2e.is_nan(got[0], got[1]):
+                    out["diffs"].append({"kind": "child-global-vs-initialiser", "instance": ck, "role": role, "index": n_gi + g_k,
+                                         "real": got, "spec": want & ((1 << wd) - 1)})
+                    break
+        exp = e2e.expected_table(m, imp)
+        if exp is not None and me["table"] is not None and exp != me["table"]:
+            out["diffs"].append({"kind": "child-table", "instance": ck, "role": role, "real": me["table"], "spec": exp})
+        for idx, same in sorted((cd.get("shared") or {}).items()):
+            want = bool(m.mems[idx - n_mi].shared)
+            if same != want:
+                out["diffs"].append({"kind": "child-memory-sharing", "instance": ck, "role": role, "memory": idx, "real": same, "spec": want})
+        if any(x is False for x in me.get("bound", {}).values()):
+            out["diffs"].append({"kind": "child-import-not-bound", "instance": ck, "role": role, "real": me["bound"]})
+        out["child_dumps"][str(ck)] = {"globals": {str(g): v for g, v in me["all_globals"].items()}, "table": me["table"],
+                                       "mem_sparse": _sparse(me["mem_bytes"]) if me.get("mem_bytes") is not None else None,
+                                       "shared": {str(i): b_ for i, b_ in (cd.get("shared") or {}).items()},
+                                       "parent_globals_after": {str(g): v for g, v in (after or {}).get("all_globals", {}).items()},
+                                       "parent_unchanged": bool(before and after and {g: x for g, x in before["all_globals"].items() if g >= n_gi} ==
+                                                                {g: x for g, x in after["all_globals"].items() if g >= n_gi})}
+    return out
 
 
 def cross_build(rrs):
